@@ -359,16 +359,26 @@ def encode_gc_states(c, o):
 def gen_lww(rng):
     n = rng.randint(2, 4)
     ops = []
-    consistent = rng.random() < 0.85
+    mode = rng.random()
+    consistent = mode < 0.7
+    # (round-9 seed C18-17) distinct: the same few values are written again and again, every write under its own
+    # timestamp (the logical component counts the writes of the case), so "the greatest timestamp wins" is well defined
+    distinct = 0.7 <= mode < 0.88
+    k = 0
     for _ in range(rng.randint(1, 25)):
         r = rng.randrange(n)
         if rng.random() < 0.55:
-            ts = [rng.randint(0, 3), rng.randint(0, 2), r if consistent else rng.randrange(n)]
-            v = (ts[0] * 100 + ts[1] * 10 + ts[2]) if consistent else rng.randint(0, 5)
+            if distinct:
+                k += 1
+                ts = [rng.randint(0, 3), k, r]
+                v = rng.randint(0, 2)
+            else:
+                ts = [rng.randint(0, 3), rng.randint(0, 2), r if consistent else rng.randrange(n)]
+                v = (ts[0] * 100 + ts[1] * 10 + ts[2]) if consistent else rng.randint(0, 5)
             ops.append(["set", r, v, ts])
         else:
             ops.append(["merge", r, rng.randrange(n)])
-    return dict(n=n, ops=ops, consistent=consistent)
+    return dict(n=n, ops=ops, consistent=consistent, distinct=distinct)
 
 
 def impl_lww(c):
@@ -399,7 +409,7 @@ def impl_lww(c):
 
 
 def oracle_lww(c, obs):
-    if not c["consistent"]:
+    if not (c["consistent"] or c.get("distinct")):
         return []
     writes = [(tuple(o[3]), o[2]) for o in c["ops"] if o[0] == "set"]
     out = []
